@@ -153,6 +153,8 @@ type State struct {
 	Dirty      map[ObjID]bool
 	WriteSites map[string]bool
 	Known      map[string]knownRec
+	GBaseSet    bool
+	GBase       int
 	SchedVars   int
 	PreemptTerm *smt.Term
 	TermFuncs  map[string]int
